@@ -11,6 +11,9 @@ keys and values; `ValidHist` only says that the two orders carried by a reload a
 import GoZero.C13.ProofsCluster
 import GoZero.C13.ProofsExcl
 import GoZero.C13.ProofsMisc
+import GoZero.C13.ProofsExclMon
+import GoZero.C13.ProofsConc
+import GoZero.C13.ProofsJoin
 namespace GoZero.C13
 open Spec
 
@@ -140,6 +143,104 @@ theorem monitor_registry_is_spec (evs : List Ev) :
   · rintro ⟨k, hk⟩
     exact ⟨(k, v), (Map.mem_iff_get _ hn k v).mpr (by rw [hg]; exact hk), rfl⟩
 
+/-- the same for the exclusive subscriber: the association-list copy of the counting registrations that the
+monitor evaluates is the function `Reg.counting` of `exclusive_view_equals_counting`. -/
+theorem monitor_counting_is_spec (evs : List Ev) :
+    (∀ k, (counting evs).get k = Reg.counting evs k)
+    ∧ (∀ v, v ∈ viewList (counting evs) ↔ (Reg.counting evs).Shows v) := by
+  obtain ⟨hn, hg⟩ := counting_monitor_refines (evs.flatMap emit) [] Reg.empty (by simp [Map.keys]) (fun _ => rfl)
+  have hg : ∀ k, (counting evs).get k = Reg.counting evs k := hg
+  have hn : (Map.keys (counting evs)).Nodup := hn
+  refine ⟨hg, fun v => ?_⟩
+  unfold viewList Reg.Shows
+  rw [mem_canonSet, List.mem_map]
+  constructor
+  · rintro ⟨p, hp, rfl⟩
+    exact ⟨p.1, by rw [← hg]; exact (Map.mem_iff_get _ hn p.1 p.2).mp hp⟩
+  · rintro ⟨k, hk⟩
+    exact ⟨(k, v), (Map.mem_iff_get _ hn k v).mpr (by rw [hg]; exact hk), rfl⟩
+
+/-! ### Concurrency: events arrive on watch goroutines while `Values()` is read (Conc.lean) -/
+
+/-- **Linearizability of `getValues` w.r.t. `addKv` / `removeKey`**, any number of threads, every schedule.
+A read that has returned (`rDone`) returned the value list of the container after the first `idx` events of the
+log (the events in the order their mutation was applied under the lock), where `idx` lies between the length of
+the log when the read started and its length now — so the list is the exact view at some moment inside the
+read, it contains every event whose write had completed (`done`) or had even only been applied when the read
+started, and it is never a snapshot older than that.  The list is the spec's view after these events. -/
+theorem reader_linearizable (excl : Bool) (sched : Conc.Sched) (t : Nat) :
+    let s := Conc.exec (Conc.init excl) sched
+    s.pc t = .rDone →
+      s.startDone t ≤ s.start t ∧ s.start t ≤ s.idx t ∧ s.idx t ≤ s.log.length
+      ∧ s.ret t = Conc.keysAt excl s.log (s.idx t)
+      ∧ (∀ v, v ∈ s.ret t ↔ ∃ k, ((s.log.take (s.idx t)).foldl (Reg.applyL excl) Reg.empty) k = some v)
+      ∧ (s.ret t).Nodup := by
+  intro s hp
+  have hi : Conc.Inv excl s := Conc.inv_exec excl sched _ (Conc.inv_init excl)
+  obtain ⟨h1, h2, h3⟩ := hi.result t hp
+  have h4 := hi.startLe t (by rw [hp]; rfl)
+  obtain ⟨k1, k2⟩ := Conc.keysAt_spec excl s.log (s.idx t)
+  exact ⟨h4.1, h1, h2, h3, by rw [h3]; exact k1, by rw [h3]; exact k2⟩
+
+/-- completed writes are in the log; the lock is exclusive; one step appends at most one event (so every
+intermediate length — every linearization point — is passed through). -/
+theorem container_lock_discipline (excl : Bool) (sched : Conc.Sched) :
+    let s := Conc.exec (Conc.init excl) sched
+    s.done ≤ s.log.length
+    ∧ (∀ t u, Conc.holds (s.pc t) = true → Conc.holds (s.pc u) = true → t = u)
+    ∧ (s.dirty = false → s.snap = Conc.keysAt excl s.log s.log.length)
+    ∧ (∀ t ch s', Conc.step s t ch = some s' → s'.log = s.log ∨ ∃ e, s'.log = s.log ++ [e]) := by
+  intro s
+  have hi : Conc.Inv excl s := Conc.inv_exec excl sched _ (Conc.inv_init excl)
+  refine ⟨hi.doneLe, fun t u => Conc.mutex_of_inv excl s hi t u, fun hd => ?_, fun t ch s' => Conc.log_grows_by_one s s' t ch⟩
+  rw [hi.snapIs, hi.clean hd]
+
+/-! ### Late joiners, reload after a reconnect, lost events -/
+
+/-- **A listener that joins an existing watch** (Registry.Monitor replays `getCurrent` to it, in whatever order
+Go ranges over the map) shows the registry, and keeps showing it after every later history. -/
+theorem late_join_view_equals_registry (before later : List Ev) (order : List (Nat × Nat))
+    (hj : ValidJoin (run Fix.fixed false before).values order)
+    (hv : ValidHist Fix.fixed (run Fix.fixed false before).values later) :
+    (∀ v, v ∈ view (runLate false order later) ↔ (Reg.run (before ++ later)).Shows v)
+    ∧ (view (runLate false order later)).Nodup := by
+  obtain ⟨h1, h2, h3⟩ := late_join_refines before later order hj hv
+  have hc : Coh (runLate false order later) := fun hd => by rw [h2] at hd; cases hd
+  refine ⟨fun v => ?_, (view_spec _ h1 hc 0).2⟩
+  rw [(view_spec _ h1 hc v).1]
+  unfold Reg.Shows
+  constructor
+  · rintro ⟨k, hk⟩; exact ⟨k, by rw [← h3 k]; exact hk⟩
+  · rintro ⟨k, hk⟩; exact ⟨k, by rw [h3 k]; exact hk⟩
+
+/-- **Events lost while a watch is re-established are repaired by the reload.**  Whatever the subscriber was
+told before (`seen`: any valid history — events may have been lost, so it need not be the truth), once a reload
+(cluster.reload after a connection-state change, or the compaction path) delivers a snapshot that is the true
+registry (`Reg.ofSnapshot kvs = Reg.run truth`), the view is the true registry, also after every later history. -/
+theorem reload_repairs_lost_events (truth seen later : List Ev) (kvs adds : List (Nat × Nat)) (rems : List Nat)
+    (hsnap : Reg.ofSnapshot kvs = Reg.run truth)
+    (hv : ValidHist Fix.fixed [] (seen ++ [.reload kvs adds rems] ++ later)) :
+    ∀ v, v ∈ view (run Fix.fixed false (seen ++ [.reload kvs adds rems] ++ later)).cont
+      ↔ (Reg.run (truth ++ later)).Shows v := by
+  intro v
+  rw [(view_equals_registry _ hv).1 v]
+  have : Reg.run (seen ++ [.reload kvs adds rems] ++ later) = Reg.run (truth ++ later) := by
+    unfold Reg.run
+    rw [List.foldl_append, List.foldl_append, List.foldl_append]
+    simp only [List.foldl_cons, List.foldl_nil, Reg.apply]
+    rw [hsnap]; rfl
+  rw [this]
+
+/-- **Joining while a watch response is being handled** (interleaving model ConcJoin, code with
+fixes/C13-late-join-atomic.patch): under every schedule of the watch goroutine and any number of joining
+goroutines, whenever no watch response is in the middle of a delivery every joined listener holds exactly the
+registry's copy `watcher.values`. -/
+theorem late_join_atomic (acts : List ConcJoin.Act) (l : Nat) :
+    let s := ConcJoin.exec true {} acts
+    s.jpc l = .joined → (∀ e, s.wpc ≠ .deliver e) → s.view l = s.values := by
+  intro s
+  exact (ConcJoin.inv_exec acts _ ConcJoin.inv_init).sync l
+
 /-! ### The defect of the pinned commit (machine-checked witnesses; replayed on the real code) -/
 
 /-- `k` registered with `v1`, then updated in place to `v2`: the pinned `addKv` still shows `v1`. -/
@@ -162,6 +263,38 @@ theorem pinned_reload_drops_changed_key :
 theorem half_fix_is_not_enough :
     canonSet (view (run ⟨true, false⟩ false [.reload [(1, 1)] [(1, 1)] [], .reload [(1, 2)] [(1, 2)] [1]]).cont) = [] := by
   decide
+
+/-- **Defect (late join).**  Without the notifyLock (`fx = false`, the code before
+fixes/C13-late-join-atomic.patch): key 1 is registered with value 5; the response [put 0 ↦ 7, delete 1] is being
+handled (listeners copied, first event applied and delivered) when listener 9 joins: it is told {0 ↦ 7, 1 ↦ 5};
+the delete of key 1 is then delivered to the copied listeners only.  Listener 9 shows value 5 for ever, the
+registry does not hold it.  Replayed on the real code by the `joinmid` operation of the harness. -/
+theorem pinned_late_join_loses_event :
+    let s := ConcJoin.exec false {}
+      [.watch [.add 1 5], .watch [], .watch [], .watch [], .watch [],            -- key 1 ↦ 5 handled completely
+       .watch [.add 0 7, .del 1], .watch [], .watch [], .watch [],               -- copy; put 0 applied and delivered
+       .join 9, .join 9, .join 9, .join 9,                                       -- listener 9 joins
+       .watch [], .watch [], .watch []]                                          -- delete 1 applied and delivered
+    s.wpc = .idle ∧ s.jpc 9 = .joined ∧ s.view 9 1 = some 5 ∧ s.values 1 = none ∧ s.values 0 = some 7 := by
+  decide
+
+/-- the same schedule with the fix: the joiner waits for the response to be finished -/
+example :
+    let s := ConcJoin.exec true {}
+      [.watch [.add 1 5], .watch [], .watch [], .watch [], .watch [],
+       .watch [.add 0 7, .del 1], .watch [], .watch [], .watch [],
+       .join 9, .join 9, .join 9, .join 9,
+       .watch [], .watch [], .watch [], .join 9, .join 9, .join 9, .join 9]
+    s.jpc 9 = .joined ∧ s.view 9 1 = none ∧ s.view 9 0 = some 7 := by decide
+
+/-- **Defect (shared snapshot shuffled in place).**  `subset` shuffles the slice `Values()` returned — the cached
+snapshot that every other caller of `Values()` gets as well.  A reader that has read the first cell of
+[10, 20, 30] when the shuffle swaps cells 0 and 2 reads [10, 20, 10]: value 30 is missing, 10 is there twice;
+two goroutines swapping at the same time (Build's first update() and the watch goroutine's) leave [30, 10, 10]
+in the cache: value 20 is lost for every later reader until the next registry event. -/
+theorem shared_snapshot_shuffle_corrupts :
+    Conc.readAcrossSwap [10, 20, 30] 1 0 2 = [10, 20, 10]
+    ∧ Conc.racingSwaps [10, 20, 30] 0 1 0 2 = [30, 10, 10] := by decide
 
 /-! ### Non-vacuity -/
 
@@ -190,5 +323,26 @@ example : (subset (List.range 40) subsetSize).length = 32 := by decide
 
 example : (([.add [1, 2], .update false [2, 3], .del [3], .update true [9]] : List KEv).foldl Kube.step {}).published
     = some [2] := by decide
+
+/-- concurrency, non-vacuity: thread 0 registers key 1 ↦ 10 completely; thread 1 starts a read (dirty: slow
+path) and is overtaken by thread 2's write of 2 ↦ 20 before it takes the lock; thread 3 reads on the fast path -/
+def sampleSched : Conc.Sched :=
+  [(0, .write (.add 1 10)), (0, .read), (0, .read), (0, .read), (0, .read),
+   (1, .read), (1, .read),
+   (2, .write (.add 2 20)), (2, .read), (2, .read), (2, .read), (2, .read),
+   (1, .read), (1, .read), (1, .read), (1, .read), (1, .read),
+   (3, .read), (3, .read), (3, .read)]
+
+example : let s := Conc.exec (Conc.init false) sampleSched
+    s.pc 1 = .rDone ∧ s.start 1 = 1 ∧ s.idx 1 = 2 ∧ s.ret 1 = [10, 20]
+    ∧ s.pc 3 = .rDone ∧ s.start 3 = 2 ∧ s.idx 3 = 2 ∧ s.ret 3 = [10, 20] ∧ s.dirty = false := by decide
+
+/-- late join, non-vacuity: after `sampleHist` the registry is {1 ↦ 30, 3 ↦ 10}; a listener joins (replay in the
+order 3, 1), then key 3 moves to value 30 and key 1 is deleted -/
+example : ValidJoin (run Fix.fixed false sampleHist).values [(3, 10), (1, 30)] := by
+  intro kv; simp [sampleHist, run, step, stepValues, ofKVs, Map.set, Map.erase]
+  exact Or.comm
+
+example : canonSet (view (runLate false [(3, 10), (1, 30)] [.put 3 30, .del 1])) = [30] := by decide
 
 end GoZero.C13
